@@ -10,7 +10,7 @@ package http2
 // never. Every request ends exactly once (a complete response, or an error),
 // no task traps, both loops exit, nothing is left blocked.
 //
-//verif:harness prop=C12 unwind=300 timeout=900
+//verif:harness prop=C12 unwind=300 timeout=900 timeoutT=3000 maxstates=1000000
 func VerifH_C12_cut() {
 	var wire []byte
 	wire = append(wire, vFrame(0x4, 0x0, 0, []byte{0, 3, 0, 0, 0, 100})...)
@@ -35,7 +35,17 @@ func VerifH_C12_cut() {
 		if garbage {
 			chunk[cut-1] ^= vU8() | 1
 		}
-		cl.feed(chunk)
+		// thorough tier: in two pieces split at any byte
+		first := cut
+		if vTier() > 0 {
+			first = vRange(0, cut)
+		}
+		if first > 0 {
+			cl.feed(chunk[:first])
+		}
+		if cut > first {
+			cl.feed(chunk[first:])
+		}
 	}
 	close(cl.conn.in)
 	vSettle()
